@@ -481,7 +481,15 @@ fn run_threads(sc: &Value) -> Value {
             let tag = tag.clone();
             std::thread::spawn(move || {
                 while !stop.load(Ordering::Relaxed) {
-                    if let Ok(b) = std::fs::read(&tag) {
+                    let r = std::fs::read(&tag);
+                    if let Err(e) = &r {
+                        // the calibration runs published status.tag already: from now on it must always be there
+                        reads.fetch_add(1, Ordering::Relaxed);
+                        if anomalies.fetch_add(1, Ordering::Relaxed) == 0 {
+                            *example.lock().unwrap() = format!("missing / unreadable ({})", e.kind());
+                        }
+                    }
+                    if let Ok(b) = r {
                         reads.fetch_add(1, Ordering::Relaxed);
                         let s = String::from_utf8_lossy(&b).to_string();
                         if s != full_a && s != full_b && anomalies.fetch_add(1, Ordering::Relaxed) == 0 {
